@@ -106,6 +106,7 @@ def gen_HR(g, style, n, m):
         # trailing block of the state at a scale ts (1e-13 .. 1e-20) observed in fine units (H ~ ts^-1/2): S = O(1)
         n1, ts = g.blk
         m1 = max(1, m // 2)
+        R = g.spd(m, cond=10 ** r.uniform(0, 1), scale=10 ** r.uniform(-1, 0))     # S well conditioned: sharp bounds
         H = [[(H[i][j] if (i < m1) == (j < n1) else 0.0) * (ts ** -0.5 if j >= n1 else 1.0) for j in range(n)] for i in range(m)]
     if style == "rankdef" or (style == "tall" and r.random() < 0.5):
         mode = r.choice(["zero", "zerorow", "duprow", "rank1"])
